@@ -129,6 +129,7 @@ def run(ctx, col, tier):
     clears = [n for n in own_nodes(d) if isinstance(n, ast.Call) and norm_src(n.func) == "out_mapping.clear"]
     col.check(len(clears) == 2, "R-UNIF", d.qualname, d.loc(), "previous content of the reported mapping is cleared",
               f"{len(clears)} clears", "stale entries can survive in the reported mapping", stmt="out-clear")
+    col.guard(out_mapping_reset, ctx, col, d)
     rets = [n for n in own_nodes(d) if isinstance(n, ast.Return)]
     ok = len(rets) == 1 and isinstance(rets[0].value, ast.Tuple) and \
         [norm_src(e) for e in rets[0].value.elts] == ["n_nodes", "ndata", "swc_like.source", "swc_like.names"]
@@ -532,6 +533,55 @@ def anchored(ctx, col):
         ("nodes at or beyond the maximum order are cut", ["return (level, level >= self.max_furcation_order)"], "threshold"),
     ])
 
+
+
+def out_mapping_reset(ctx, col, d):
+    """R-OUTCLEAR: the caller's mapping object is emptied before it is filled (must-pass on the CFG): a dict / list handed to two calls otherwise keeps the entries of
+    the earlier, larger result"""
+    from .. import cfg as cfgmod
+    col.rule("R-OUTCLEAR", "the reported mapping holds this call's entries only: every store into the caller's `out_mapping` (item store, update / extend / append / setdefault) is reached "
+             "only through `out_mapping.clear()` (or a whole-slice replacement) on every path from the function's entry -- CFG must-pass", floor=1)
+    prm = "out_mapping"
+    if prm not in d.params:
+        col.unresolved("R-OUTCLEAR", d.qualname, d.loc(), "mapping parameter", f"no parameter `{prm}`", stmt="outclear")
+        return
+    g = cfgmod.build(d)
+
+    def is_clear(n):
+        a = n.ast
+        if isinstance(a, ast.Expr) and isinstance(a.value, ast.Call) and norm_src(a.value.func) == f"{prm}.clear":
+            return True
+        if isinstance(a, ast.Assign) and len(a.targets) == 1 and norm_src(a.targets[0]) == f"{prm}[:]":
+            return True
+        return False
+
+    stores = []
+    for n in own_nodes(d):
+        if isinstance(n, ast.Call) and isinstance(n.func, ast.Attribute) and isinstance(n.func.value, ast.Name) and n.func.value.id == prm \
+                and n.func.attr in ("update", "extend", "append", "setdefault", "insert", "__setitem__"):
+            stores.append(n)
+        if isinstance(n, (ast.Assign, ast.AugAssign)):
+            for t in (n.targets if isinstance(n, ast.Assign) else [n.target]):
+                if isinstance(t, ast.Subscript) and isinstance(t.value, ast.Name) and t.value.id == prm and norm_src(t) != f"{prm}[:]":
+                    stores.append(n)
+    rebinds = [n for n in own_nodes(d) if isinstance(n, ast.Assign) and any(isinstance(t, ast.Name) and t.id == prm for t in n.targets)]
+    if rebinds or not stores:
+        col.unresolved("R-OUTCLEAR", d.qualname, d.loc(), "the reported mapping is emptied before it is filled", "the parameter is re-bound, or no store into it was recognised", stmt="outclear")
+        return
+    from ..rules.sortedness import _stmt_of
+    for st in stores:
+        holder = st
+        node = g.node_of(holder)
+        if node is None:
+            holder = _stmt_of(d, st)
+            node = g.node_of(holder) if holder is not None else None
+        if node is None:
+            col.unresolved("R-OUTCLEAR", d.qualname, d.loc(st), "store into the mapping", "statement not on the CFG", stmt=f"outclear:{norm_src(st)[:30]}")
+            continue
+        ok = g.must_pass(g.entry, [node], is_clear)
+        col.check(ok, "R-OUTCLEAR", d.qualname, d.loc(st), "the reported mapping is emptied before it is filled", f"`{norm_src(st)[:60]}` after clear()",
+                  f"`{norm_src(st)[:70]}` is reached on a path that never empties `{prm}`: when the caller hands the same dict / list to two calls (or a non-empty one), entries of the earlier "
+                  f"result that the new, smaller result does not overwrite stay in it -- the mapping reports nodes that are not in the returned tree", stmt=f"outclear:{norm_src(st)[:30]}", definite=True)
 
 
 def node_subtree_start(ctx, col):
